@@ -66,6 +66,17 @@ def r1(ctx, chk):
         chk.ob(rule, "direction word %s ∈ KNOWN_WORD_TOKENS" % w, w in known, "",
                key={"table": "KNOWN_WORD_TOKENS", "unit": w}, file="dateparser/languages/dictionary.py",
                function="<module>", line=None)
+    # the English vocabulary (the canon every other language is translated to) spells every unit in the singular and the plural as WORDS:
+    # in a phrase of several units only the last count sits next to ago/in and is covered by a counted pattern; '30 seconds' inside
+    # 'in 1 minute 30 seconds' is translated word by word
+    ld = ctx.memo("langdata", lambda: LangData(ctx.repo))
+    en = ld.locale_info("en", "en")
+    for u in units:
+        words = en.get(u, [])
+        for form in (u, u + "s"):
+            chk.ob(rule, "English lists the word %r under %s" % (form, u), form in words,
+                   "en.py info[%r] is %r: a multi-unit phrase using %r ('in 1 minute 30 %s') is not translated and parses to None" % (u, words, form, form),
+                   key={"table": "en words", "unit": form}, file="dateparser/data/date_translation_data/en.py", function="info[%r]" % u, line=None)
     # the word filter accepts every unit and the direction words
     f = ix.func(FP + ":FreshnessDateDataParser._are_all_words_units")
     skip = None
